@@ -153,6 +153,9 @@ package compactindexsized
 //@   ensures result1 == nil ==> len(result0.Value) == int(b.OffsetWidth) && fresh(result0.Value)
 //@   ensures result1 == nil ==> forall j int :: 0 <= j && j < int(b.OffsetWidth) ==> result0.Value[j] == fbyte(b.Entries, i*int(b.Stride)+3+j)
 //@   ensures result1 != nil ==> result1 != ErrNotFound
+//@   # C04 (every inserted key is found): an entry whose bytes the reader delivers in full is returned, whatever error
+//@   # accompanies the full read (io.ReaderAt may return len(p), io.EOF at the end of the source)
+//@   ensures readfull(b.Entries, i*int(b.Stride), int(b.Stride)) ==> result1 == nil
 
 // Soundness (a nil error returns the value of a stored entry with the key's hash) holds for ANY file content; completeness
 // (ErrNotFound means no stored entry has the key's hash) is stated under the search-tree order of the stored entries (the
